@@ -17,7 +17,10 @@ token files.  What the harness replaces:
 
 Engine events
   ["submit", j] ["step", s] ["deliver", k] ["fs", p] ["race", q] ["racedel"] ["reclaim", p, k] ["jobgone", j]
-  ["drop", s] ["restart", s]
+  ["drop", s] ["restart", s] ["recreate", s, total']
+`recreate`: the process asks again for the same named token with another total through the real `CounterToken.create`
+(its registry holds its one token object): observed are the identity of the returned object, the `total` of the
+instance and the number of token objects the process has on the directory.
 `racedel`: at the next `TokenFile.delete()` of a releasing instance, a watcher thread of another instance that is
 entitled to remove the same file does so between `is_file()` and `unlink()`.
 `race q`: at the next `open("wt")` of a token file by another instance, every pending event of `q`
@@ -170,6 +173,7 @@ class MultiWorld(schedeng.World):
         self.observer_died = False
         self.ptoks = []
         self.all_tokens = []
+        self.objs = [[] for _ in range(self.ns)]  # live CounterToken objects of each simulated process on the directory
         for s in range(self.ns):
             self.T[s] = self._new_token(s)
             self.ptoks.append(self._new_ptoks())
@@ -268,6 +272,7 @@ class MultiWorld(schedeng.World):
             return real_notify()
         T.acquire, T.release, T.aio_notify = acquire, release, notify
         self.all_tokens.append(T)
+        self.objs[s] = [T]
         return T
 
     def _watch(self, tf):
@@ -325,7 +330,7 @@ class MultiWorld(schedeng.World):
             T = self.T[s]
             procs.append({
                 "cache": sorted(fid(n) for n in T.cache), "avail": T.available, "alive": self.alive[s],
-                "dropped": self.dropped[s],
+                "dropped": self.dropped[s], "total": T.total, "nobj": len(self.objs[s]),
                 "pending": [[k, fid(n)] for k, n in self.pending[s]],
                 "watch": sorted(fid(n) for n, _ in self.watched[s]),
             })
@@ -340,6 +345,13 @@ class MultiWorld(schedeng.World):
         self.oplog.append((op, out, o))
         self._monitor_disk(o)
 
+    def reported_total(self):
+        """the total the token itself reports (token.info)"""
+        try:
+            return int((_PosixPath(self.dir) / "token.info").read_text())
+        except Exception:
+            return self.total
+
     def _monitor_disk(self, o):
         tot = 0
         for f, w in o["disk"]:
@@ -350,8 +362,9 @@ class MultiWorld(schedeng.World):
                     pass
             else:
                 tot += self.req.get(f, 0)
-        if tot > self.total:
-            self.viol.append(("C08", "token-files-exceed-total", f"token files on disk add up to {tot} > total {self.total}: {o['disk']}"))
+        total = self.reported_total()
+        if tot > total:
+            self.viol.append(("C08", "token-files-exceed-total", f"token files on disk add up to {tot} > total {total}: {o['disk']}"))
 
     # -- events ---------------------------------------------------------------------------------------------
     def _run_handle_on(self, s):
@@ -426,6 +439,25 @@ class MultiWorld(schedeng.World):
             self.cur = None
         self._log(["fsEvent", p], {"ok": ok, "notify": self.notified})
 
+    def _recreate(self, s, newtotal):
+        """process `s` asks again for the same named token with `newtotal`, through the real per-process registry
+        (`CounterToken.create`, what `connector.createtoken` / `xp.token` call); the registry of the simulated process
+        holds its one token object"""
+        saved = CounterToken.TOKENS
+        CounterToken.TOKENS = {"t": self.T[s]}
+        self.cur = s
+        try:
+            obj = CounterToken.create("t", self.dir, newtotal)
+        finally:
+            CounterToken.TOKENS = saved
+            self.cur = None
+        same = obj is self.T[s]
+        if not same and all(obj is not o for o in self.objs[s]):
+            # a second token object of the same process on the same directory (it stays alive with the first)
+            self.objs[s].append(obj)
+            self.all_tokens.append(obj)
+        self._log(["recreate", s], {"ok": same, "notify": False})
+
     def _reclaim(self, p, i):
         """the watcher thread of instance `p` ends: the real `TokenFile.delete()`"""
         name, tf = self.watched[p].pop(i)
@@ -491,6 +523,8 @@ class MultiWorld(schedeng.World):
             self._reclaim(ev[1], ev[2])
         elif k == "racedel":
             self.racedel = True
+        elif k == "recreate":
+            self._recreate(ev[1], ev[2])
         elif k == "jobgone":
             job = self.jobs[ev[1]]
             self.gone_orphans.add(ev[1])
@@ -532,8 +566,9 @@ class MultiWorld(schedeng.World):
                 held += c
                 if c:
                     who.append(idx)
-        if held > self.total:
-            self.viol.append(("C08", "capacity-exceeded", f"jobs {who} of all schedulers run together and hold {held} > total {self.total}"))
+        total = self.reported_total()
+        if held > total:
+            self.viol.append(("C08", "capacity-exceeded", f"jobs {who} of all schedulers run together and hold {held} > total {total}"))
 
     def choices(self, pending_submits, faults=None):
         """enabled events; `faults` = {"drop": bool, "race": bool, "restart": bool}"""
@@ -579,6 +614,9 @@ class MultiWorld(schedeng.World):
             ch += [["restart", s] for s in range(self.ns) if self.dropped[s]]
         if faults.get("racedel") and not self.racedel:
             ch.append(["racedel"])
+        if faults.get("recreate"):
+            ch += [["recreate", s, t] for s in range(self.ns) if not self.dropped[s] and self.ipc is None
+                   for t in sorted({self.total, self.total + 1, max(1, self.total - 1)})]
         if faults.get("race"):
             ch += [["race", q] for q in range(self.ns) if self.alive[q] and not self.dropped[q] and q not in self.race]
         return ch
@@ -701,7 +739,7 @@ def run_schedule(spec, chooser, faults=None, max_events=1500):
 
 
 def run_random(spec, rng, faults=None, fault_p=0.04, max_events=1500):
-    budget = {"drop": 1, "restart": 1, "race": 3, "racedel": 2}
+    budget = {"drop": 1, "restart": 1, "race": 3, "racedel": 2, "recreate": 2}
 
     def chooser(w, ch, fch):
         fch = [f for f in fch if budget.get(f[0], 0) > 0]
@@ -730,4 +768,4 @@ def run_replay(spec, events, complete=True, max_events=1500):
         if not complete:
             return None
         return ch[0]
-    return run_schedule(spec, chooser, {"drop": True, "restart": True, "race": True, "racedel": True}, max_events)
+    return run_schedule(spec, chooser, {"drop": True, "restart": True, "race": True, "racedel": True, "recreate": True}, max_events)
